@@ -164,6 +164,7 @@ static int q_list(ctx_t *c, sqfs_u64 ref, uint64_t *out)
 	return ret > 0 ? 0 : ret;
 }
 
+static unsigned long iter_reopen_differs;
 static unsigned long stream_after_error;
 static int q_stream(ctx_t *c, const sqfs_inode_generic_t *ino, uint64_t *out, sqfs_u64 *total)
 {
@@ -394,6 +395,50 @@ static int run_query(ctx_t *c, char *line, uint64_t *out)
 			*out = h;
 		}
 		return ret;
+	}
+	case 'O': {
+		/* iterator on directory inode a: every sub directory entry is opened twice through open_subdir();
+		 * the second listing must be the first one again */
+		sqfs_dir_iterator_t *it = NULL;
+		unsigned n = 0;
+		sscanf(line + 1, "%llu", &a);
+		ret = sqfs_dir_reader_get_inode(c->dr, a, &ino);
+		if (ret) return ret;
+		ret = sqfs_dir_iterator_create(c->dr, c->idtbl, c->data, c->xr, ino, &it);
+		sqfs_free(ino);
+		if (ret) return ret;
+		for (;;) {
+			sqfs_dir_entry_t *ent = NULL;
+			int round;
+			uint64_t hh[2] = { 0, 0 };
+			int rr[2] = { 0, 0 };
+			ret = it->next(it, &ent);
+			if (ret != 0) break;
+			h = H(h, ent->name, strlen(ent->name) + 1);
+			if (S_ISDIR(ent->mode) && n < 20) {
+				for (round = 0; round < 2; ++round) {
+					sqfs_dir_iterator_t *sub = NULL;
+					hh[round] = H0;
+					rr[round] = it->open_subdir(it, &sub);
+					if (rr[round] == 0) {
+						sqfs_dir_entry_t *e2 = NULL;
+						unsigned k = 0;
+						while (sub->next(sub, &e2) == 0 && k++ < 100) { hh[round] = H(hh[round], e2->name, strlen(e2->name) + 1); sqfs_free(e2); }
+						sqfs_drop(sub);
+					}
+				}
+				if (rr[0] != rr[1] || hh[0] != hh[1]) {
+					printf("ITER-REOPEN entry=%s first=%d second=%d\n", ent->name, rr[0], rr[1]);
+					iter_reopen_differs++;
+				}
+				h = HV(h, rr[0]); h = HV(h, hh[0]);
+				++n;
+			}
+			sqfs_free(ent);
+		}
+		sqfs_drop(it);
+		*out = h;
+		return ret < 0 ? ret : 0;
 	}
 	case 'Y': {
 		/* low level walk of xattr set a; before every value another descriptor (b, if >= 0) is looked up in between.
